@@ -157,6 +157,7 @@ static void request(world &w, browser &b, rng &r)
 	if (observed && expect == -1) { w.trace.push_back(req + "load"); viol(w, m.exists ? "session:state-survived-its-deadline-or-lost-cookie" : "session:ended-session-readable-again", "browser " + std::to_string(b.id)); return; }
 	if (!observed && expect == 1) { w.trace.push_back(req + "load"); viol(w, "session:state-lost-before-its-deadline", "browser " + std::to_string(b.id)); return; }
 	if (expect == 0) O().count("requests_in_envelope_gap");
+	if (!observed) { std::string pre0 = w.prefix + "_"; for (auto const &cn : b.j.get_cookie_names()) if (cn.size() > pre0.size() && cn.compare(0, pre0.size(), pre0) == 0) O().count("stale_exposed_cookies_at_ended_session"); }
 	if (!observed) { if (m.exists && m.kind == 'I') { /* orphan on the server, not revoked */ } m = msession(); if (!keys.empty()) { viol(w, "session:empty-session-has-keys", ""); return; } }
 	else {
 		O().count("loads_with_session");
@@ -232,6 +233,19 @@ static void request(world &w, browser &b, rng &r)
 	try { si.save(); } catch (std::exception const &e) { w.trace.push_back(req + "save threw"); viol(w, "session:save-threw", e.what()); return; }
 	req += "save";
 	w.trace.push_back(req);
+	// a request that found no session (deadline passed, cookie lost or refused) starts from nothing: whatever it leaves behind,
+	// no exposed cookie of the ended session may stay in the browser (remove_unknown_cookies is at its default, on)
+	if (!observed) {
+		std::set<std::string> names = b.j.get_cookie_names();
+		std::string pre = w.prefix + "_";
+		for (auto const &cn : names) {
+			if (cn.size() <= pre.size() || cn.compare(0, pre.size(), pre) != 0) continue;
+			std::string k = cn.substr(pre.size());
+			auto q = n.data.find(k);
+			if (q == n.data.end() || !q->second.exposed) { viol(w, "session:exposed-cookie-outlives-its-ended-session", k); return; }
+		}
+		O().count("ended_session_exposed_checks");
+	}
 	// ---- after save
 	bool n_empty = n.data.empty() && !n.has_t && !n.has_h && !n.has_s;
 	std::string cookie_after = b.j.get_session_cookie(w.prefix);
